@@ -13,21 +13,43 @@ import (
 	"strings"
 )
 
+// universe: the keys and values a label or annotation map is drawn from. Small enough that independent draws
+// collide, and including the well-known keys that tools write (and that a server-side hook might single out):
+// kubectl's last-applied-configuration and restartedAt, change-cause, the deployment.kubernetes.io/* bookkeeping,
+// leader-election and helm annotations; keys differing only in case; values that are empty, short, numeric, JSON
+// blobs the size and shape of a last-applied manifest or a managed-fields entry, and very long.
+type universe struct {
+	keys   []string
+	values []string
+}
+
 var (
-	labelKeys = []string{"app", "App", "tier", "example.com/role", "example.com/Role"}
-	annKeys   = []string{"example.com/paused", "example.com/drained", "example.com/Paused", "note", "proxy.kubegateway.io/feature-gates"}
-	mapValues = []string{"", "", "a", "b"}
+	lastAppliedBlob = `{"apiVersion":"proxy.kubegateway.io/v1alpha1","kind":"UpstreamCluster","metadata":{"annotations":{},"name":"a"},"spec":{"clientConfig":{"bearerToken":"c2VjcmV0"},"servers":[{"endpoint":"https://x:6443"}]}}` + "\n"
+	managedBlob     = `{"f:metadata":{"f:annotations":{".":{},"f:note":{}}},"f:spec":{"f:servers":{}}}`
+	longValue       = strings.Repeat("0123456789abcdef", 320) // 5 KiB
+
+	labelU = universe{
+		keys:   []string{"app", "App", "tier", "example.com/role", "example.com/Role", "app.kubernetes.io/name", "app.kubernetes.io/managed-by", "kubernetes.io/metadata.name"},
+		values: []string{"", "", "a", "b", "Helm"},
+	}
+	annU = universe{
+		keys: []string{"example.com/paused", "example.com/drained", "example.com/Paused", "note", "proxy.kubegateway.io/feature-gates",
+			"kubectl.kubernetes.io/last-applied-configuration", "kubectl.kubernetes.io/Last-Applied-Configuration", "kubectl.kubernetes.io/restartedAt",
+			"kubernetes.io/change-cause", "deployment.kubernetes.io/revision", "deployment.kubernetes.io/desired-replicas",
+			"control-plane.alpha.kubernetes.io/leader", "meta.helm.sh/release-name"},
+		values: []string{"", "", "a", "b", "1", "2", lastAppliedBlob, managedBlob, longValue},
+	}
 )
 
 // genStrMap draws 0-3 entries.
-func genStrMap(r *rand.Rand, keys []string) map[string]string {
+func genStrMap(r *rand.Rand, u universe) map[string]string {
 	n := r.Intn(4)
 	if n == 0 {
 		return nil
 	}
 	m := map[string]string{}
 	for i := 0; i < n; i++ {
-		m[keys[r.Intn(len(keys))]] = mapValues[r.Intn(len(mapValues))]
+		m[u.keys[r.Intn(len(u.keys))]] = u.values[r.Intn(len(u.values))]
 	}
 	return m
 }
@@ -59,7 +81,8 @@ func swapCase(k string) string {
 
 // editStrMap returns an edited copy of m (the edit's name is for the histogram). Edits keep the map valid for
 // labels as well as annotations (keys come from the universe or are case variants of present keys).
-func editStrMap(r *rand.Rand, m map[string]string, keys []string) (map[string]string, string) {
+func editStrMap(r *rand.Rand, m map[string]string, u universe) (map[string]string, string) {
+	keys := u.keys
 	out := copyMap(m)
 	ks := sortedKeys(out)
 	absent := func() string {
@@ -75,7 +98,7 @@ func editStrMap(r *rand.Rand, m map[string]string, keys []string) (map[string]st
 		return cand[r.Intn(len(cand))]
 	}
 	if len(ks) == 0 {
-		return genStrMap(r, keys), "redraw"
+		return genStrMap(r, u), "redraw"
 	}
 	switch r.Intn(9) {
 	case 0: // rename a key keeping its value
@@ -108,7 +131,7 @@ func editStrMap(r *rand.Rand, m map[string]string, keys []string) (map[string]st
 		nk := absent()
 		if nk != "" {
 			delete(out, ks[r.Intn(len(ks))])
-			out[nk] = mapValues[r.Intn(len(mapValues))]
+			out[nk] = u.values[r.Intn(len(u.values))]
 			return out, "add-and-remove"
 		}
 	case 4: // only the case of a key
@@ -121,7 +144,7 @@ func editStrMap(r *rand.Rand, m map[string]string, keys []string) (map[string]st
 		}
 	case 5: // change one value
 		k := ks[r.Intn(len(ks))]
-		for _, v := range []string{"", "a", "b"} {
+		for _, v := range u.values {
 			if v != out[k] && r.Intn(2) == 0 {
 				out[k] = v
 				return out, "change-value"
@@ -137,11 +160,11 @@ func editStrMap(r *rand.Rand, m map[string]string, keys []string) (map[string]st
 		return out, "remove-key"
 	case 7: // add a key
 		if nk := absent(); nk != "" {
-			out[nk] = mapValues[r.Intn(len(mapValues))]
+			out[nk] = u.values[r.Intn(len(u.values))]
 			return out, "add-key"
 		}
 	}
-	return genStrMap(r, keys), "redraw"
+	return genStrMap(r, u), "redraw"
 }
 
 // editMapValue edits a non-empty map (string keys) in place by reflection: rename a key keeping its value, swap
